@@ -1,6 +1,7 @@
 pub mod docs;
 pub mod drive;
 pub mod fns;
+pub mod fuzz;
 pub mod glue;
 pub mod inputs;
 pub mod model;
